@@ -1,6 +1,122 @@
-(* Properties_C15.v — placeholder while the proofs are being developed *)
-From BS Require Import Base ChronoSpec ChronoModel.
+(* Properties_C15.v — C15: ISO-8601 parsing yields the denoted value or throws; it never wraps.
+   Statements only; proofs in Chrono*.v.
+
+   _refuted / _outside pairs where the faithful model falsifies the full statement:
+     defect_N1  SafeDurationCast of a negative count into an unsigned coarser target (wrapped value)
+     defect_N2  SafeDurationCast of a uint64 count above INT64_MAX into a signed coarser target (signed overflow) *)
+From BS Require Import Base ChronoSpec ChronoModel ChronoArith ChronoDecimal ChronoSweep ChronoCalendar ChronoYear
+  ChronoSafe ChronoSafeAdd ChronoText ChronoTp ChronoTpParse ChronoTpRt ChronoTs ChronoRefute.
 Local Open Scope Z_scope.
-Example T_C15_epoch : civil_from_days 0 = (1970, 1, 1).
-Proof. vm_compute. reflexivity. Qed.
-Print Assumptions T_C15_epoch.
+
+(* ---- ParseSecondFractions: exact for every fraction of 1..9 digits (the double integer division
+        10^18 / (10^n * 10^9 / v) is v * 10^(9-n)); algebraic, nothing enumerated ---- *)
+Theorem T_C15_fraction_exact : forall ds rest,
+  all_digits ds = true -> no_digit_head rest -> (1 <= length ds <= 9)%nat ->
+  parse_second_fractions (ds ++ rest) = Some (dec_value ds * 10 ^ (9 - Z.of_nat (length ds)), rest).
+Proof. exact fraction_exact. Qed.
+Print Assumptions T_C15_fraction_exact.
+
+Theorem T_C15_fraction_core : forall n v, (1 <= n <= 9)%nat -> 0 < v < 10 ^ Z.of_nat n ->
+  1000000000000000000 / (10 ^ Z.of_nat n * 1000000000 / v) = v * 10 ^ (9 - Z.of_nat n).
+Proof.
+  intros n v Hn Hv. apply frac_core; [exact Hv|].
+  rewrite <- Z.pow_add_r by lia. replace (Z.of_nat n + (9 - Z.of_nat n)) with 9 by lia. reflexivity.
+Qed.
+Print Assumptions T_C15_fraction_core.
+
+(* ten or more digits: rejected unless all zero; no digit at all: rejected *)
+Theorem T_C15_fraction_long : forall ds rest,
+  all_digits ds = true -> no_digit_head rest -> (10 <= length ds)%nat ->
+  parse_second_fractions (ds ++ rest) = if dec_value ds =? 0 then Some (0, rest) else None.
+Proof. exact fraction_too_long. Qed.
+Print Assumptions T_C15_fraction_long.
+
+Example T_C15_fraction_example :
+  parse_second_fractions [57;50;53;90]%N = Some (925000000, [90]%N) /\
+  parse_second_fractions [48;48;48;48;48;48;48;48;48;49;90]%N = None.
+Proof. split; vm_compute; reflexivity. Qed.
+Print Assumptions T_C15_fraction_example.
+
+(* ---- SafeDurationCast.  cast_spec from to c :=  the result is the exact value and fits the target,
+        or out_of_range and no fitting exact value exists; nothing else (no UB, no other error).
+        Full strength: forall from to c (periods positive, reduced ratio with num = 1 or den = 1,
+        representations int8/int32/int64/uint64, c representable) -> cast_spec from to c.  FALSE: ---- *)
+Theorem T_C15_safe_cast_refuted :
+  (exists from to c, rep4 (d_rep from) /\ rep4 (d_rep to) /\ wf_dty from /\ wf_dty to /\ simple_ratio from to /\
+     fits (d_rep from) c = true /\ ~ cast_spec from to c) /\
+  safe_cast SecT (mkD U64 60 1) (-16) = Ok 307445734561825860 /\
+  safe_cast (mkD U64 1 1) (mkD I64 60 1) 18446744073709551600 = UB UBOverflow.
+Proof.
+  split; [|exact (conj w_N1 w_N2)].
+  exists SecT, (mkD U64 60 1), (-16). unfold rep4, wf_dty, simple_ratio. cbn [d_rep d_num d_den SecT].
+  repeat split; auto; try lia; try (right; reflexivity).
+  unfold cast_spec. rewrite w_N1. unfold exact_cast. cbn. intros [_ H]. lia.
+Qed.
+Print Assumptions T_C15_safe_cast_refuted.
+
+Theorem T_C15_safe_cast_outside : forall from to c,
+  rep4 (d_rep from) -> rep4 (d_rep to) -> wf_dty from -> wf_dty to ->
+  d_num from * d_den to <= 4611686018427387904 -> d_den from * d_num to <= 4611686018427387904 ->
+  fits (d_rep from) c = true -> simple_ratio from to ->
+  ~ defect_N1 from to c -> ~ defect_N2 from to c -> cast_spec from to c.
+Proof. exact safe_cast_correct. Qed.
+Print Assumptions T_C15_safe_cast_outside.
+
+Example T_C15_safe_cast_example :
+  safe_cast (mkD I64 604800 1) (mkD I32 1 1) 3550 = Ok 2147040000 /\
+  safe_cast (mkD I64 604800 1) (mkD I32 1 1) 3551 = Err OutOfRange /\
+  safe_cast (mkD U64 1 1) (mkD I8 60 1) 7620 = Ok 127 /\
+  safe_cast (mkD U64 1 1) (mkD I8 60 1) 7621 = Err OutOfRange.
+Proof. repeat split; vm_compute; reflexivity. Qed.
+Print Assumptions T_C15_safe_cast_example.
+
+(* the general-ratio branch (not reachable with the standard units) silently returns 0 *)
+Example T_C15_safe_cast_general_refuted : safe_cast (mkD I64 2 3) (mkD I64 1 1) 1 = Ok 0.
+Proof. exact w_N3. Qed.
+Print Assumptions T_C15_safe_cast_general_refuted.
+
+(* ---- SafeAddDuration (both overloads): the exact sum or out_of_range; never UB, never wrapped ---- *)
+Theorem T_C15_safe_add_dur : forall D target src c,
+  rep4 (d_rep D) -> wf_dty D -> fits (d_rep D) target = true -> fits (d_rep src) c = true ->
+  safe_add_dur D target src c =
+  if c =? 0 then Ok target else
+  a <- safe_cast src D c ;;
+  if fits (d_rep D) (target + a) then Ok (target + a) else Err OutOfRange.
+Proof. exact safe_add_dur_spec. Qed.
+Print Assumptions T_C15_safe_add_dur.
+
+Theorem T_C15_safe_add_tp : forall D tp src c,
+  rep4 (d_rep D) -> wf_dty D -> (d_rep src = I64 \/ d_rep src = d_rep D) ->
+  fits (d_rep D) tp = true -> fits (d_rep src) c = true ->
+  safe_add_tp D tp src c =
+  if c =? 0 then Ok tp else
+  a <- as_out_of_range (safe_cast src (op_dty D src) c) ;;
+  if fits (d_rep D) (tp + a) then Ok (tp + a) else Err OutOfRange.
+Proof. exact safe_add_tp_spec. Qed.
+Print Assumptions T_C15_safe_add_tp.
+
+Example T_C15_safe_add_example :
+  safe_add_dur (mkD I8 1 1) 100 (mkD I64 1 1) 27 = Ok 127 /\ safe_add_dur (mkD I8 1 1) 100 (mkD I64 1 1) 28 = Err OutOfRange /\
+  safe_add_tp (mkD I64 1 1000000000) (-9223372036854775807) (mkD I64 1 1) (-1) = Err OutOfRange.
+Proof. repeat split; vm_compute; reflexivity. Qed.
+Print Assumptions T_C15_safe_add_example.
+
+(* ---- only fractions of a second are rounded, to nearest with ties to even:
+        std::chrono::round<duration<R,P>>(nanoseconds) as instantiated by the parsers ---- *)
+Theorem T_C15_round : forall P R ns, rep3 R -> -999999999 <= ns <= 999999999 -> (R = U64 -> 0 <= ns) ->
+  dround NsT (pty P R) ns = Ok (round_half_even ns (tick_ns P)).
+Proof. exact dround_rep3. Qed.
+Print Assumptions T_C15_round.
+
+(* ---- the calendar step of To(string) -> time_point never overflows for |year| <= 10^16 and equals
+        days_from_civil (the era guard and the int64/unsigned arithmetic are exact there) ---- *)
+Theorem T_C15_date_steps : forall A y m d (K : Z -> outcome A),
+  -10000000000000000 <= y <= 10000000000000000 -> 1 <= m <= 12 -> 1 <= d <= 31 ->
+  date_steps y m d K = K (days_from_civil y m d).
+Proof. intros A. exact (@date_steps_ok A). Qed.
+Print Assumptions T_C15_date_steps.
+
+(* near +-2^63 years the same arithmetic is undefined behaviour *)
+Example T_C15_year_overflow : tp_parse Pd I64 text_N4 = UB UBOverflow /\ tp_parse Ps I64 text_N4b = UB UBOverflow.
+Proof. exact (conj w_N4 w_N4b). Qed.
+Print Assumptions T_C15_year_overflow.
